@@ -450,11 +450,26 @@ pub fn run_c08(tier: Tier) -> ! {
             ctx().witness("c08_deep_state");
         }
     });
+    // independent cross-check of the explorer: the same depth-bounded world as a stateright Model
+    {
+        let d = tier.pick(5usize, 7);
+        let mal: Vec<u8> = tier.pick(vec![0, 1, 2, 5, 8, 12, 14], ALL_MALFORMED.to_vec());
+        let mut acts = std_acts(1, &mal, true);
+        acts.push(Act::UserWrite(0, 2));
+        let cfg = Arc::new(base_cfg(vec![PeriphCfg::simple(9, 2, 1)], Mon::C08, acts));
+        let ours = bfs(vec![W4World::init(&cfg)], &BfsOpts { max_depth: d, max_states: 10_000_000, max_secs: 600.0 }, |_, _| {});
+        let theirs = crate::xcheck::dp_unique_states(&cfg, d);
+        if ours.states as usize != theirs {
+            machinery_failure(&format!("explorer cross-check failed: in-house BFS found {} states to depth {d}, stateright {theirs}", ours.states));
+        }
+        ctx().note(format!("stateright cross-check: {} unique states to depth {d} in both explorers", theirs));
+        ctx().witness("c08_stateright_cross_check_agrees");
+    }
     finish_mc(
         t,
         "BFS over the joint state space (real DpMaster, reference slaves, per-destination frame-count monitor as history variables); transitions as C03 plus user calls at every point; oracle on the function-code byte and full bytes of consecutive requests per destination and on Offline events",
         json!({"max_retry_limits": tier.pick(vec![1, 2], vec![1, 2, 3, 15]), "one_peripheral_depth": tier.pick(11, 30), "multi_peripheral_depth": tier.pick(9, 14)}),
-        vec!["c08_deep_state"],
+        vec!["c08_deep_state", "c08_stateright_cross_check_agrees"],
         0,
     )
 }
